@@ -298,6 +298,9 @@ pub fn gen_tokens(rng: &mut Rng, kind: Kind, max_out: usize) -> (Vec<Tok>, Vec<u
                 1 => hi.min(if kind == Kind::Lz10 { 18 } else { 16 }),
                 2 if kind == Kind::Lz11 => *rng.pick(&[16usize, 17, 272, 273, 274, 4095, 4096, 4097]),
                 3 if kind == Kind::Lz11 && max_out > 70000 => *rng.pick(&[65808usize, 65807, 30000]),
+                // 4-byte form with a non-zero top nibble (length >= 0x1111); later references then
+                // reach back across a long copy
+                3 if kind == Kind::Lz11 && !cfg!(miri) && max_out >= 250 => *rng.pick(&[0x1111usize, 0x1112, 5000, 8209, 0x2111]),
                 4 => disp.clamp(lo, hi),          // disp == len
                 5 => (disp + 1).clamp(lo, hi),    // overlapping copy
                 _ => rng.range(lo, if kind == Kind::Lz10 { 18 } else { 40 }),
